@@ -15,11 +15,12 @@ from pbt.core import clause, enum_clause
 PROPERTY = "C08"
 CLAUSES = []
 ASSUMPTIONS = [
-    "records are finite float64 arrays or int64 / list / non-contiguous / negative-stride / read-only variants holding such values, "
+    "records are finite float64 arrays or int64 / int32 / int16 / int8 / list / non-contiguous / negative-stride / read-only variants, "
     "2 <= n <= 5000 (drawn), 60 000..150 000 (drawn, 1 in 40), 2 000..300 000 (mid-range ladder, thorough to 2e6), about 1e6..3e6 "
-    "(giant-records); |a| <= 1e9.  Narrow integer dtypes and float32 records are not generated here (handled centrally)",
-    "trap is a Python bool (True / False, by keyword or positionally).  numpy bools and integers are not generated: the pinned tree "
-    "tests `trap is False`, so np.False_ / 0 select the trapezoid - reported to the maintainers of the framework, not asserted here",
+    "(giant-records); |a| <= 1e9 (int32 counts to 2^31).  float32 records are not generated here",
+    "trap is True / False as a python bool, a numpy bool or the integer 1 / 0 (all equal to True / False), by keyword or positionally",
+    "narrow integer records (int16 / int32 / int8 counts using the type's full range, gen.narrow_int) with float time steps and with "
+    "integer ones (python int, numpy int16 / int64) under both rules, at array and object level",
     "rectangle rule (trap=False): either endpoint accepted as long as it is the same for every i and the series start at 0 "
     "(the statement does not fix the endpoint)",
     "rounding, local: |(s[i]-s[i-1]) - increment| <= 4 eps (2 max_{j<=i}|s[j]| + dt (|x[i]|+|x[i-1]|)/2): the intermediates of ANY "
@@ -57,11 +58,32 @@ def _cases(draw, long_one_in=40):
     exact = spec["k"] == "dyadic" and draw(st.booleans())
     dt = draw(_dyadic_dt()) if exact else draw(gen.dts(1e-4, 2.0))
     return {"rec": spec, "dt": dt, "trap": draw(st.booleans()), "exact": exact, "alias": draw(st.booleans()),
-            "order": draw(st.integers(0, 119)), "k2": draw(st.integers(-8, 8)), "peek": draw(st.integers(0, 3))}
+            "order": draw(st.integers(0, 119)), "k2": draw(st.integers(-8, 8)), "peek": draw(st.integers(0, 3)),
+            "narrow": draw(st.sampled_from([None, None, None, None, None, "int16", "int32", "int8"])),
+            "flag": draw(st.sampled_from(["py", "py", "np", "int"])),
+            "dti": draw(st.sampled_from([None, None, "py2", "py3", "np16", "np64"]))}
 
 
-def _container(spec, a0):
+def _flag(trap, how):
+    """The trap flag as a python bool, a numpy bool or an integer: all of them are True / False."""
+    return {"py": bool(trap), "np": np.bool_(trap), "int": int(bool(trap))}[how or "py"]
+
+
+def _case_dt(case):
+    """The time step of a case; narrow-integer records also come with integer time steps (python int, numpy int16 / int64)."""
+    how = case.get("dti") if case.get("narrow") else None
+    if not how:
+        return case["dt"]
+    return {"py2": 2, "py3": 3, "np16": np.int16(2), "np64": np.int64(2)}[how]
+
+
+def _container(spec, a0, narrow=None):
     """(what the caller hands over, the float64 values it stands for)."""
+    if narrow:
+        if narrow.endswith("!"):  # the values as they are, cast (corpus cases)
+            arg = np.array(np.round(a0), dtype=narrow[:-1])
+            return arg, arg.astype(float)
+        return gen.narrow_int(a0, narrow)
     if spec.get("as") == "int":
         top = float(np.max(np.abs(a0))) if len(a0) else 0.0
         s = 10.0 ** (3 + _hh("int", len(a0), spec.get("seed", 0)) % 4) / top if 0 < top < 1e3 else 1.0
@@ -72,7 +94,8 @@ def _container(spec, a0):
 
 
 def _classify(ctx, spec, a, case):
-    ctx.cls("kind=" + spec["k"], gen.size_class(len(a)), "trap" if case.get("trap", True) else "rect")
+    ctx.cls("kind=" + spec["k"], gen.size_class(len(a)), "trap" if case.get("trap", True) else "rect",
+            "narrow=" + case["narrow"] if case.get("narrow") else None, "flag=" + case.get("flag", "py"))
     if case.get("exact"):
         ctx.cls("exact-dyadic")
     if spec.get("as"):
@@ -175,19 +198,20 @@ def _check_object(ctx, what, asig, a, dt, trap, order, exact=False):
              "trap in {T,F} by keyword or positionally, either array-level entry point; non-trivial = record has >= 2 sign changes",
         oracle="reference model: long-double loop over the defining increments (local bound) and their running sum (global bound) for "
                "velocity and displacement; equality on dyadic data",
-        require={"as=list": 0.02, "rect": 0.25})
+        require={"as=list": 0.02, "rect": 0.25, "narrow=int16": 0.04, "flag=np": 0.1})
 def increments(case, ctx):
     spec = case["rec"]
     a0 = gen.build(spec)
-    arg, a = _container(spec, a0)
-    dt = case["dt"]
+    arg, a = _container(spec, a0, case.get("narrow"))
+    dt = _case_dt(case)
+    ctx.cls("int-dt" if dt is not case["dt"] else None)
     trap = case["trap"]
     _classify(ctx, spec, a, case)
     fn = disp_mod.velocity_and_displacement_from_acceleration if case.get("alias") else disp_mod.calc_velo_and_disp_from_accel_arr
     ctx.cls("entry=" + ("alias" if case.get("alias") else "calc"))
     # the flag by keyword, or positionally as documented (acceleration, dt, trap) in one case out of three
-    v, d = ctx.libf(core.call_form(case), fn, ["trap"], arg, dt, trap=trap)
-    _check_series(ctx, fn.__name__, a, dt, v, d, trap, case["exact"])
+    v, d = ctx.libf(core.call_form(case), fn, ["trap"], arg, dt, trap=_flag(trap, case.get("flag")))
+    _check_series(ctx, "%s(trap=%r)" % (fn.__name__, _flag(trap, case.get("flag"))), a, dt, v, d, trap, case["exact"])
     if trap:
         v, d = ctx.lib(fn, arg, dt)
         _check_series(ctx, fn.__name__ + " (default trap)", a, dt, v, d, True, case["exact"])
@@ -203,8 +227,9 @@ def increments(case, ctx):
 def object_level(case, ctx):
     spec = case["rec"]
     a0 = gen.build(spec)
-    arg, a = _container(spec, a0)
-    dt = case["dt"]
+    arg, a = _container(spec, a0, case.get("narrow"))
+    dt = _case_dt(case)
+    ctx.cls("int-dt" if dt is not case["dt"] else None)
     exact = case["exact"]
     _classify(ctx, spec, a, case)
     n = len(a)
@@ -219,15 +244,18 @@ def object_level(case, ctx):
         # and peaks were already read; the peaks read after each switch are those of the series generated last
         peek = case.get("peek", 0)
         for label, other in (("fresh object", ctx.lib(eqsig.AccSignal, arg, dt)), ("object with cached default series", asig)):
-            ctx.libf(core.call_form(case), other.generate_displacement_and_velocity_series, ["trap"], trap=False)
+            ctx.libf(core.call_form(case), other.generate_displacement_and_velocity_series, ["trap"], trap=_flag(False, case.get("flag")))
             o2 = _order_first(3 + peek % 2, case.get("order", 0))  # pgv or pgd first
             _check_object(ctx, "after generate_displacement_and_velocity_series(trap=False), %s:" % label, other, a, dt, False, o2, exact)
             if peek >= 2:
                 ctx.lib(other.generate_displacement_and_velocity_series)
             else:
-                ctx.lib(other.generate_displacement_and_velocity_series, trap=True)
+                ctx.lib(other.generate_displacement_and_velocity_series, trap=_flag(True, case.get("flag")))
             _check_object(ctx, "after generate_displacement_and_velocity_series(trap=True) again, %s:" % label, other, a, dt, True,
                           _order_first(4 - peek % 2, case.get("order", 0) // 5), exact)
+    if case.get("narrow"):
+        pk = ctx.lib(im.calc_peak, arg)
+        ctx.check(pk == _maxabs(a), "calc_peak(%s record)=%r != max abs %r" % (case["narrow"], pk, _maxabs(a)))
     for name, ser in (("a", a), ("v", v), ("d", d)):
         pk = ctx.lib(im.calc_peak, ser)
         ctx.check(pk == _maxabs(ser), "calc_peak(%s)=%r != max abs %r" % (name, pk, _maxabs(ser)))
@@ -401,6 +429,17 @@ def peak_small_lengths(case, ctx):
                         fn.__name__, name, lab, cont, pk, want, n, "negative" if sign < 0 else "positive", pos))
     ctx.check(got["pga"] == 2.0 and got["pgv"] == float(np.max(np.abs(v))) and got["pgd"] == float(np.max(np.abs(d))),
               "pga / pgv / pgd = %r / %r / %r vs max|.| (n=%d, read order %s)" % (got["pga"], got["pgv"], got["pgd"], n, order))
+    # the same record as raw counts using the full range of a narrow integer type (a negative largest value is the type's minimum)
+    for dtype in gen.NARROW_DTYPES:
+        c, ex = gen.narrow_int(a, dtype)
+        for fn in (im.calc_peak, im.calculate_peak):
+            pk = ctx.lib(fn, c)
+            ctx.check(pk == _maxabs(ex), "%s(%s record) = %r, max|.| = %r (n=%d, largest value %s at sample %d)" % (
+                fn.__name__, dtype, pk, _maxabs(ex), n, "negative" if sign < 0 else "positive", pos))
+        _check_object(ctx, "AccSignal(%s record, n=%d)" % (dtype, n), ctx.lib(eqsig.AccSignal, c, 0.01), ex, 0.01, True, order)
+        dtn = [0.01, 2, np.int16(3)][n % 3]
+        v2, d2 = ctx.lib(disp_mod.calc_velo_and_disp_from_accel_arr, c, dtn, trap=bool(n % 2))
+        _check_series(ctx, "calc_velo_and_disp_from_accel_arr(%s record, dt=%r, trap=%s)" % (dtype, dtn, bool(n % 2)), ex, dtn, v2, d2, bool(n % 2))
 
 
 # very long records (continuous monitoring): lengths around 2^20 and 2^21
@@ -509,6 +548,22 @@ def mid_range(case, ctx):
     _check_series(ctx, "calc_velo_and_disp_from_accel_arr(%s record, trap=%s)" % (how, trap_c), ac, dt, v, d, trap_c)
     pk = ctx.lib(im.calc_peak, arg)
     ctx.check(pk == _maxabs(ac), "calc_peak(%s record) = %r, max|.| = %r (n=%d)" % (how, pk, _maxabs(ac), n))
+    # 2b. raw counts in a narrow integer type (full range), both rules, array and object level
+    dtype = gen.NARROW_DTYPES[seed % 3]
+    cn, exn = gen.narrow_int(a, dtype)
+    ctx.cls("narrow=" + dtype)
+    dti = [2, np.int16(2), 3, np.int64(2)][(seed // 3) % 4]
+    for trap in (True, False):
+        for dtn in (dt, dti):  # the float time step of the case and an integer one (python / numpy int)
+            v, d = ctx.libf(form, alias if trap else calc, ["trap"], cn, dtn, trap=_flag(trap, ["np", "int", "py"][seed % 3]))
+            _check_series(ctx, "array level (%s record, dt=%r, trap=%s)" % (dtype, dtn, trap), exn, dtn, v, d, trap)
+    pk = ctx.lib(im.calc_peak, cn)
+    ctx.check(pk == _maxabs(exn), "calc_peak(%s record) = %r, max|.| = %r (n=%d)" % (dtype, pk, _maxabs(exn), n))
+    _check_object(ctx, "AccSignal(%s record, n=%d)" % (dtype, n), ctx.lib(eqsig.AccSignal, cn, dt), exn, dt, True, _read_order(seed // 37))
+    oi = ctx.lib(eqsig.AccSignal, cn, dti)
+    ctx.lib(oi.generate_displacement_and_velocity_series, trap=False)
+    _check_object(ctx, "AccSignal(%s record, dt=%r) after generate_displacement_and_velocity_series(trap=False):" % (dtype, dti), oi, exn, dti, False,
+                  _order_first(3, seed // 41))
     # 3. object level, hashed read order; calc_peak on the three series
     order = _read_order(seed // 11)
     ctx.cls("first=" + order[0])
@@ -562,7 +617,7 @@ def _opt_enum(tier, shard, nshards):
                             if k % nshards == shard:
                                 h = _hh(gen.run_seed(), "c08:opt", k)
                                 yield {"n": int(sizes[h % len(sizes)]), "seed": h % (2 ** 31 - 1), "dt": [0.005, 0.01, 2.0 ** -7, 0.37, 2][k % 5],
-                                       "trap": trap, "entry": entry, "as": how, "form": form, "first": first}
+                                       "trap": trap, "entry": entry, "as": how, "form": form, "first": first, "flag": ["py", "np", "int"][k % 3]}
                             k += 1
 
 
@@ -577,11 +632,11 @@ def mid_range_options(case, ctx):
     a0 = _mid_record(n, seed, ["burst", "walk", "sines"][seed % 3])
     arg, a = _mid_container(a0, how) if how != "f64" else (a0, a0)
     ctx.nt(True)
-    ctx.cls("entry=" + case["entry"], "as=" + how, "trap" if trap else "rect", "first=" + case["first"])
+    ctx.cls("entry=" + case["entry"], "as=" + how, "trap" if trap else "rect", "first=" + case["first"], "flag=" + case.get("flag", "py"))
     if not case["entry"].startswith("object"):
         fn = disp_mod.calc_velo_and_disp_from_accel_arr if case["entry"] == "calc" else disp_mod.velocity_and_displacement_from_acceleration
-        v, d = ctx.libf(case["form"], fn, ["trap"], arg, dt, trap=trap)
-        _check_series(ctx, "%s(%s record, trap=%s, %s)" % (fn.__name__, how, trap, case["form"]), a, dt, v, d, trap)
+        v, d = ctx.libf(case["form"], fn, ["trap"], arg, dt, trap=_flag(trap, case.get("flag")))
+        _check_series(ctx, "%s(%s record, trap=%r, %s)" % (fn.__name__, how, _flag(trap, case.get("flag")), case["form"]), a, dt, v, d, trap)
         return
     first = _READS.index(case["first"])
     order = _order_first(first, seed)
@@ -590,5 +645,5 @@ def mid_range_options(case, ctx):
         if seed % 2:  # with or without a previous read of the default series and peaks
             _ = [getattr(asig, nm) for nm in _read_order(seed // 2)]
             ctx.cls("regenerated-after-read")
-        ctx.libf(case["form"], asig.generate_displacement_and_velocity_series, ["trap"], trap=trap)
+        ctx.libf(case["form"], asig.generate_displacement_and_velocity_series, ["trap"], trap=_flag(trap, case.get("flag")))
     _check_object(ctx, "AccSignal(%s record), %s, trap=%s:" % (how, case["entry"], trap), asig, a, dt, trap, order)
